@@ -9,7 +9,9 @@
 (*               or writes into a private in-memory buffer (envelope header    *)
 (*               re-serialisation), or is the CLI's writer;                    *)
 (*   FsSame      the evidence directory content hash is unchanged (only the    *)
-(*               CLI output file may appear).                                  *)
+(*               CLI output file may appear);                                  *)
+(*   BufSame     a caller-supplied in-memory buffer holds the same bytes after *)
+(*               the call as before.                                           *)
 (* Everything else - open for writing, rename, remove, truncate, mkdir, write  *)
 (* on a caller handle, a new mutating call site - has no action: a trace that  *)
 (* contains it is rejected at that event.                                      *)
@@ -35,7 +37,8 @@ Site(ev)       == ev.kind = "site" /\
                   \/ ev.what = "open" /\ (ev.mode \in ReadModes \/ <<ev.file, ev.func>> \in WriterSites)
                   \/ ev.what = "write" /\ <<ev.file, ev.func>> \in WriterSites
 FsSame(ev)     == ev.kind = "fs" /\ (SetOf(ev.changed) = {} \/ (ev.phase = "cli" /\ SetOf(ev.changed) = {"OUT"}))
-Allowed(ev)    == OsOpen(ev) \/ HandleCall(ev) \/ Site(ev) \/ FsSame(ev)
+BufSame(ev)    == ev.kind = "buffer" /\ ev.changed = FALSE
+Allowed(ev)    == OsOpen(ev) \/ HandleCall(ev) \/ Site(ev) \/ FsSame(ev) \/ BufSame(ev)
 
 Traces == ndJsonDeserialize(IOEnv.TRACE_FILE)
 T == Traces[tid]
